@@ -25,9 +25,11 @@ import (
 
 // -----------------------------------------------------------------------------
 
+// States of the hand-off slot (getp) of an unbuffered channel.
 const (
-	chanNoSendRecv = 0
-	chanHasRecv    = 1
+	chanNoSendRecv = 0 // idle
+	chanHasRecv    = 1 // a receiver has published its buffer (data) and waits
+	chanRecvDone   = 2 // a sender has filled that buffer; the receiver has not taken notice yet
 )
 
 type Chan struct {
@@ -108,7 +110,7 @@ func ChanTrySend(p *Chan, v unsafe.Pointer, eltSize int) bool {
 		if p.data != nil {
 			c.Memcpy(p.data, v, uintptr(eltSize))
 		}
-		p.getp = chanNoSendRecv
+		p.getp = chanRecvDone
 	} else {
 		if p.len == n || p.close {
 			p.mutex.Unlock()
@@ -145,7 +147,7 @@ func ChanSend(p *Chan, v unsafe.Pointer, eltSize int) bool {
 		if p.data != nil {
 			c.Memcpy(p.data, v, uintptr(eltSize))
 		}
-		p.getp = chanNoSendRecv
+		p.getp = chanRecvDone
 	} else {
 		for p.len == n && !p.close {
 			p.cond.Wait(&p.mutex)
@@ -172,7 +174,7 @@ func chanTryRecv(p *Chan, v unsafe.Pointer, eltSize int, acceptSelectSend bool) 
 	n := p.cap
 	p.mutex.Lock()
 	if n == 0 {
-		if p.sends == 0 || p.getp == chanHasRecv || p.close {
+		if p.sends == 0 || p.getp != chanNoSendRecv || p.close {
 			tryOK = p.close
 			p.mutex.Unlock()
 			return
@@ -199,16 +201,27 @@ func chanTryRecv(p *Chan, v unsafe.Pointer, eltSize int, acceptSelectSend bool) 
 	p.mutex.Unlock()
 	p.cond.Broadcast()
 	if n == 0 {
-		p.mutex.Lock()
-		for p.getp == chanHasRecv && !p.close {
-			p.cond.Wait(&p.mutex)
-		}
-		recvOK = !p.close
+		recvOK = p.finishRecv()
 		tryOK = recvOK
-		p.mutex.Unlock()
 	} else {
 		recvOK, tryOK = true, true
 	}
+	return
+}
+
+// finishRecv waits until a sender has filled the published buffer (or the
+// channel is closed), then frees the hand-off slot for the next receiver.
+// A value delivered just before a close is still a successful receive.
+func (p *Chan) finishRecv() (recvOK bool) {
+	p.mutex.Lock()
+	for p.getp == chanHasRecv && !p.close {
+		p.cond.Wait(&p.mutex)
+	}
+	recvOK = p.getp == chanRecvDone
+	p.getp = chanNoSendRecv
+	p.data = nil
+	p.mutex.Unlock()
+	p.cond.Broadcast()
 	return
 }
 
@@ -216,7 +229,7 @@ func ChanRecv(p *Chan, v unsafe.Pointer, eltSize int) (recvOK bool) {
 	n := p.cap
 	p.mutex.Lock()
 	if n == 0 {
-		for p.getp == chanHasRecv && !p.close {
+		for p.getp != chanNoSendRecv && !p.close {
 			p.cond.Wait(&p.mutex)
 		}
 		if p.close {
@@ -243,12 +256,7 @@ func ChanRecv(p *Chan, v unsafe.Pointer, eltSize int) (recvOK bool) {
 	p.mutex.Unlock()
 	p.cond.Broadcast()
 	if n == 0 {
-		p.mutex.Lock()
-		for p.getp == chanHasRecv && !p.close {
-			p.cond.Wait(&p.mutex)
-		}
-		recvOK = !p.close
-		p.mutex.Unlock()
+		recvOK = p.finishRecv()
 	} else {
 		recvOK = true
 	}
